@@ -217,8 +217,18 @@ def run_case(desc):
                 a[...] = np.nan          # nothing selectable: zero positions, zero utility rows
             bs = int(rng.randint(1, a.size + 3))
             ru = bool(rng.rand() < 0.8)
-            r1 = U.simple_batch(a.copy(), random_state=s, batch_size=bs, return_utilities=ru)
-            r2 = U.simple_batch(a.copy(), random_state=s, batch_size=bs, return_utilities=ru)
+            # the very same array object for both calls (the primitive must not consume its input), in every third case
+            # handed over as a non-contiguous view
+            a_in = a.copy()
+            if (desc["seed"] >> 9) % 3 == 0 and a.ndim >= 1:
+                big = np.full(tuple(2 * k for k in a.shape), np.nan)
+                big[tuple(slice(None, None, 2) for _ in a.shape)] = a
+                a_in = big[tuple(slice(None, None, 2) for _ in a.shape)]
+            a_before = a_in.copy()
+            r1 = U.simple_batch(a_in, random_state=s, batch_size=bs, return_utilities=ru)
+            r2 = U.simple_batch(a_in, random_state=s, batch_size=bs, return_utilities=ru)
+            if not np.array_equal(a_in, a_before, equal_nan=True):
+                viol.append({"component": "simple_batch", "kind": "input-utilities-modified", "detail": "a=%r -> %r" % (a_before.tolist(), a_in.tolist())})
             if not np.array_equal(np.asarray(r1[0] if ru else r1), np.asarray(r2[0] if ru else r2)):
                 viol.append({"component": "simple_batch", "kind": "not-reproducible", "detail": "a=%r seed=%d" % (a.tolist(), s)})
             fin = a[~np.isnan(a)]
